@@ -188,6 +188,85 @@ def replay(res, tier, decls, flags=(), tag="base", values=True):
     return results
 
 
+def replay_cxx(res, tier, decls):
+    """C++ classes without tail-padding reuse: POD bases (records of the Gen_Layout universe) + own members,
+    with and without --explicit-padding; clang++ vs rustc for size, alignment, base and member offsets."""
+    rnd = random.Random(C.seed() * 17 + 9)
+    pods = [d for d in decls if d["kind"] == "struct" and attr_class(d) == "plain" and "z" not in d["codes"] and "l" not in d["codes"]]
+    if len(pods) < 4:
+        return
+    n = 160 if tier == "thorough" else 48
+    w = C.workdir("c02-cxx")
+    cases = []
+    for k in range(n):
+        nb = rnd.choice([1, 2, 2, 3])
+        bases = [rnd.choice(pods) for _ in range(nb)]
+        own = [rnd.choice("csidp") for _ in range(rnd.choice([0, 0, 1, 2]))]
+        cases.append((bases, own))
+    hp = os.path.join(w, "cls.hpp")
+    with open(hp, "w") as f:
+        f.write(LP.PRELUDE)
+        for k, (bases, own) in enumerate(cases):
+            for b, d in enumerate(bases):
+                f.write(LP.c_decl("B%03d_%d" % (k, b), d) + "\n")
+            f.write("struct D%03d : %s {\n%s};\n" % (k, ", ".join("B%03d_%d" % (k, b) for b in range(len(bases))),
+                                                      "".join("  %s;\n" % (LP.CTYPE[c] % ("m%d" % j)) for j, c in enumerate(own))))
+    # clang++ numbers
+    src = os.path.join(w, "probe.cc")
+    with open(src, "w") as f:
+        f.write('#include <stdio.h>\n#include <stddef.h>\n#include "%s"\nint main() {\n' % hp)
+        for k, (bases, own) in enumerate(cases):
+            f.write("{ D%03d d; printf(\"{\\\"n\\\":\\\"D%03d\\\",\\\"size\\\":%%ld,\\\"align\\\":%%ld,\\\"offsets\\\":[\", (long)sizeof(d), (long)alignof(D%03d));\n" % (k, k, k))
+            parts = ["(long)((char*)static_cast<B%03d_%d*>(&d) - (char*)&d)" % (k, b) for b in range(len(bases))] + \
+                    ["(long)((char*)&d.m%d - (char*)&d)" % j for j in range(len(own))]
+            for i, pe in enumerate(parts):
+                f.write('printf("%s%%ld", %s);\n' % ("," if i else "", pe))
+            f.write('printf("]}\\n"); }\n')
+        f.write("return 0; }\n")
+    exe = os.path.join(w, "probe")
+    p = subprocess.run(["clang++", "-std=c++11", "-w", "-o", exe, src], stdout=subprocess.PIPE, stderr=subprocess.STDOUT, text=True)
+    if p.returncode != 0:
+        raise C.ToolError("clang++ probe failed: " + p.stdout[-1200:])
+    cl = {}
+    for line in subprocess.run([exe], stdout=subprocess.PIPE, text=True).stdout.splitlines():
+        v = json.loads(line)
+        cl[v["n"]] = v
+    checked = 0
+    for tag, flags in (("plain", []), ("explicit", ["--explicit-padding"])):
+        out = os.path.join(w, "b-%s.rs" % tag)
+        p = subprocess.run([C.BINDGEN, hp, "--no-layout-tests", "-o", out] + flags, stdout=subprocess.PIPE, stderr=subprocess.PIPE, text=True, timeout=900)
+        if p.returncode != 0:
+            res.violation("bindgen-failed-on-generated-classes:" + tag, {"stderr": p.stderr[-1200:]})
+            continue
+        with open(out) as f:
+            text = f.read()
+        rs = os.path.join(w, "r-%s.rs" % tag)
+        with open(rs, "w") as f:
+            f.write("#![allow(warnings)]\npub mod b {\n%s\n}\nfn main() {\n" % text)
+            for k, (bases, own) in enumerate(cases):
+                names = ["_base"] + ["_base_%d" % b for b in range(1, len(bases))] + ["m%d" % j for j in range(len(own))]
+                offs = ",".join("::std::mem::offset_of!(b::D%03d, %s)" % (k, nm) for nm in names)
+                f.write('{ let o: Vec<usize> = vec![%s]; println!("{{\\"n\\":\\"D%03d\\",\\"size\\":{},\\"align\\":{},\\"offsets\\":{:?}}}", ::std::mem::size_of::<b::D%03d>(), ::std::mem::align_of::<b::D%03d>(), o); }\n'
+                        % (offs, k, k, k))
+            f.write("}\n")
+        exe2 = os.path.join(w, "r-" + tag)
+        p = subprocess.run(["rustc", "--edition", "2021", "-o", exe2, rs], stdout=subprocess.PIPE, stderr=subprocess.STDOUT, text=True)
+        if p.returncode != 0:
+            bad = sorted(set(re.findall(r"\b(D\d{3})\b", p.stdout)))
+            res.violation("class-bindings-rejected-by-rustc:%s" % tag, {"names": bad[:8], "rustc": p.stdout[-1200:]})
+            continue
+        for line in subprocess.run([exe2], stdout=subprocess.PIPE, text=True).stdout.splitlines():
+            v = json.loads(line)
+            c = cl[v["n"]]
+            checked += 1
+            diff = [x for x in ("size", "align", "offsets") if c[x] != v[x]]
+            if diff:
+                k = int(v["n"][1:])
+                res.violation("class-layout:%s:bases=%d:own=%d:%s" % (tag, len(cases[k][0]), len(cases[k][1]), "+".join(diff)),
+                              {"class": v["n"], "clang": c, "rust": v, "flags": flags})
+    res.add(traces_validated_against_impl=checked, cxx_classes_replayed=checked)
+
+
 def trace_corpus(res, tier):
     cases = C.corpus_cases()
     sel = C.sample(cases, None if tier == "thorough" else 200, "c02-t")
@@ -244,5 +323,6 @@ def run(res, tier):
                 res.violation("presentation-option-changes-layout:%s" % flags[0],
                               {"decl": key, "base": b, "with_option": r, "flags": flags})
     res.add(presentation_option_sets=nopt)
+    replay_cxx(res, tier, decls)
     trace_corpus(res, tier)
     res.cov["exhaustive"] = False
